@@ -2960,7 +2960,14 @@ XPath::step(
         // fall-through on purpose.
 
     case XPathExpression::eFROM_ATTRIBUTES:
-        opPos = findAttributes(executionContext, context, opPos, stepType, *subQueryResults);
+        // The node test of a step of a match pattern on the attribute
+        // axis (eMATCH_ATTRIBUTE) is a test on the attribute axis...
+        opPos = findAttributes(
+                    executionContext,
+                    context,
+                    opPos,
+                    XPathExpression::eFROM_ATTRIBUTES,
+                    *subQueryResults);
         break;
 
     case XPathExpression::eMATCH_ANY_ANCESTOR:
